@@ -31,6 +31,7 @@ type histCfg struct {
 	between              []string // membership ops allowed between hands: arrive sitout rebuy leave-busted leave-live addon none
 	late                 []string // ops allowed between hands after the next hand has been set up (during the open-game wait)
 	retry                []string // ops allowed while tableGameOpen sleeps in its retry loop (first attempt failed)
+	opened               []string // lock-free ops applied from inside the OnTableUpdated callback of the table_game_opened update (between openGame and startGame)
 	mid                  []string // ops allowed at the first wager request: arrive addon-part rebuy-part leave-sitout leave-part none
 	finish               []string // settlement-finished policies available: all none first
 	newStack             int64
@@ -53,8 +54,10 @@ type hist struct {
 	curBlind        *pt.TableBlindState
 	onExternal      func(kind string)
 	inLate          bool
-	lateLeave       map[int]bool // hand after which a player left during the open-game wait
-	breakDuringWait bool         // a break was applied after the next hand had been set up (open-game wait)
+	lateLeave       map[int]bool                // hand after which a player left during the open-game wait
+	openedUpdate    map[int]*pt.TableBlindState // hand -> blind level set from inside its opened callback
+	openedDone      map[int]bool
+	breakDuringWait bool // a break was applied after the next hand had been set up (open-game wait)
 }
 
 var lineByName = map[string]Line{"foldout": lineFoldOut, "checkdown": lineCheckDown, "allin": lineAllIn, "explore": lineExplore}
@@ -286,6 +289,26 @@ func runHist0(prefix []int, hc *histCfg, vcfg vrt.Config, mk func(h *hist) []Mon
 			h.in += s.chips
 			if s.joined {
 				td.join(s.id)
+			}
+		}
+		if len(hc.opened) > 0 {
+			h.openedUpdate, h.openedDone = map[int]*pt.TableBlindState{}, map[int]bool{}
+			td.onSnap = func(sn *Snap) {
+				g := sn.T.State.GameCount
+				if sn.T.State.Status != pt.TableStateStatus_TableGameOpened || h.openedDone[g] {
+					return
+				}
+				h.openedDone[g] = true
+				op := hc.opened[env.ChooseDev(len(hc.opened), "at-opened-callback")]
+				if op == "none" {
+					return
+				}
+				d := h.apply(op)
+				h.events = append(h.events, "in-opened-callback:"+d)
+				if h.curBlind != nil {
+					b := *h.curBlind
+					h.openedUpdate[g] = &b
+				}
 			}
 		}
 		cfg := &handCfg{name: hc.name, tcfg: hc.tcfg, hands: hc.hands}
